@@ -490,6 +490,45 @@ func RunChild(sc *Scenario) *Result {
 			// counters are decremented just after the function returned
 			c.settleCounters(st.Mods)
 			c.snapshot("counts", nil, 0)
+		case "waitrestart":
+			// wait until every panicking service worker has been run again
+			deadline := time.Now().Add(20 * time.Second)
+			for {
+				pending := false
+				for id, w := range c.workByID {
+					if w.Kind == "service" && w.Panic != "" && w.Mode == "finish" && atomic.LoadInt32(c.beganN[id]) == 1 {
+						pending = true
+					}
+				}
+				if !pending || time.Now().After(deadline) {
+					break
+				}
+				time.Sleep(200 * time.Microsecond)
+			}
+		case "waitcounts":
+			// quiescence: poll until the module counters equal the number of items that are really still running
+			deadline := time.Now().Add(10 * time.Second)
+			var exp map[string][4]int
+			for {
+				exp = c.expectedCounts()
+				ok := true
+				if st := modules.GetStatus(); st != nil {
+					for n := range c.mods {
+						ms := st.Modules[n]
+						e := exp[n]
+						if ms == nil || ms.Workers != e[0] || ms.Tasks != e[1] || ms.MicroTasks != e[2] {
+							ok = false
+						}
+					}
+				}
+				if ok || time.Now().After(deadline) {
+					break
+				}
+				time.Sleep(300 * time.Microsecond)
+			}
+			b, _ := json.Marshal(exp)
+			c.snapshot("counts", nil, 0)
+			c.rec(Event{Kind: "expected-counts", Info: string(b), Counts: exp})
 		case "requeue":
 			for _, n := range st.Mods {
 				m := sc.Mod(n)
@@ -549,6 +588,31 @@ func RunChild(sc *Scenario) *Result {
 	c.mu.Unlock()
 	res.Completed = true
 	return res
+}
+
+// expectedCounts derives, per module, how many workers / tasks / microtasks are really still running.
+func (c *child) expectedCounts() map[string][4]int {
+	out := map[string][4]int{}
+	for n := range c.mods {
+		out[n] = [4]int{}
+	}
+	for id, w := range c.workByID {
+		running := int(atomic.LoadInt32(c.beganN[id]) - atomic.LoadInt32(c.ended[id]))
+		if running <= 0 {
+			continue
+		}
+		e := out[c.workMod[id]]
+		switch w.Kind {
+		case "runworker", "startworker", "service", "hook":
+			e[0] += running
+		case "task", "schedtask":
+			e[1] += running
+		default:
+			e[2] += running
+		}
+		out[c.workMod[id]] = e
+	}
+	return out
 }
 
 // settleCounters waits (bounded) until the work counters of the named modules stop changing.
